@@ -146,8 +146,48 @@ func (p *hProfile) genFilter(t *rapid.T, view *hView, ns string) bson.D {
 		var f bson.D
 		gen.WithHint(gen.HintOf(docs...), func() { f = p.cfg.Filter(1).Draw(t, "filter") })
 		return f
+	case k == 8:
+		return p.genSeedFilter(t)
 	default:
 		return bson.D{}
+	}
+}
+
+// genSeedFilter builds a conjunction of equalities in one of the shapes an
+// upsert derives its new document from: plain fields, $eq, and $and nested to
+// several levels.
+func (p *hProfile) genSeedFilter(t *rapid.T) bson.D {
+	val := func(label string) interface{} {
+		if len(p.tinyVals) > 0 {
+			return rapid.SampledFrom(p.tinyVals).Draw(t, label)
+		}
+		return p.cfg.Scalar().Draw(t, label)
+	}
+	eq := func(k string) bson.D {
+		v := val("sv" + k)
+		if rapid.IntRange(0, 3).Draw(t, "seq"+k) == 0 {
+			return bson.D{{Key: k, Value: bson.D{{Key: "$eq", Value: v}}}}
+		}
+		return bson.D{{Key: k, Value: v}}
+	}
+	keys := [][]string{{"a", "b", "c"}, {"a", "b", "c"}, {"_id", "b", "c"}, {"a.b", "b", "c"}, {"a", "b.x", "c"}}
+	ks := rapid.SampledFrom(keys).Draw(t, "skeys")
+	a, b, c := eq(ks[0]), eq(ks[1]), eq(ks[2])
+	switch rapid.IntRange(0, 6).Draw(t, "sshape") {
+	case 0:
+		return append(append(a, b...), c...)
+	case 1:
+		return bson.D{{Key: "$and", Value: bson.A{a, b}}}
+	case 2:
+		return bson.D{{Key: "$and", Value: bson.A{bson.D{{Key: "$and", Value: bson.A{a, b}}}, c}}}
+	case 3:
+		return append(bson.D{{Key: "$and", Value: bson.A{a, bson.D{{Key: "$and", Value: bson.A{b}}}}}}, c...)
+	case 4:
+		return bson.D{{Key: "$and", Value: bson.A{bson.D{{Key: "$and", Value: bson.A{bson.D{{Key: "$and", Value: bson.A{a}}}}}}, append(b, c...)}}}
+	case 5:
+		return append(a, b...)
+	default:
+		return a
 	}
 }
 
